@@ -28,7 +28,7 @@ PROP = dict(
                  "after a key does not change lookup answers - C09/C10's subject) and ClearSylKeepsAlt (a layout's table of "
                  "alternative syllables does not depend on the content of the phonetic buffer: alt_syllables is a constant "
                  "table in every SyllableEditor implementation, by reading) for the page invariant; C01's EnvOK + the "
-                 "reachable-state invariant + not C01's recorded class F02/F03 for range_is_syllables and for completeness "
+                 "reachable-state invariant + not C01's word-losing class Known (former F02/F03, repaired: a list without candidates is not opened / is closed) for range_is_syllables and for completeness "
                  "without the RangeIs premise (phrase_list_complete itself holds for every environment, with the premise)",
                  "env.lookupAll is Layered::lookup_all_phrases (system layers + user layer minus removed entries); that "
                  "it returns what the layers hold is checked by the oracle against the raw layers, and is C09's theorem",
@@ -69,7 +69,7 @@ MANIFEST = dict(
          "phrase list is non-empty, on page 0, strictly in range, over a non-empty part of the buffer for which the "
          "dictionary has a phrase). range_is_syllables : range_is_syllables_full (the highlighted range of an open phrase list is a "
          "non-empty run of syllables inside the editor's own buffer after EVERY history of valid operations from a state "
-         "satisfying C01's reachable-state invariant, under C01's EnvOK, outside C01's recorded class F02/F03 - all key events "
+         "satisfying C01's reachable-state invariant, under C01's EnvOK, outside C01's word-losing class Known (former F02/F03, repaired) - all key events "
          "in all states incl. Down/Space cycling, select(n), start/cancel selecting, commit, reset, option/layout/engine/"
          "dictionary calls and the four jump_to_*_selection_point calls on an open phrase list, which C01's invariant now "
          "covers through the Anchor of the range); open_phrase_list_complete / phrase_list_complete_reached (completeness "
@@ -79,7 +79,7 @@ MANIFEST = dict(
          "witness history evaluated in the model: the range stays the syllable). Termination of the selector loops (init, next, "
          "next/prev_selection_point, jump_to_last: fuel sufficiency with the progress argument) is C01's selector_loops_terminate / "
          "init_terminates. NOT A THEOREM: range_is_syllables_unconditional (the hypothesis-free form: every environment, also "
-         "ones whose dictionary breaks its contract, and C01's class F02/F03 - stated as a def, neither proved nor refuted). F04, F08, the missing page reset of j/k/jump, "
+         "ones whose dictionary breaks its contract, and C01's word-losing class Known (former F02/F03) - stated as a def, neither proved nor refuted). F04, F08, the missing page reset of j/k/jump, "
          "the symbol lists' answer to an out-of-range choice and F40 (chewing_cand_list_first on the simple engine's "
          "single-word list swallowed a following non-syllable symbol; found by the thorough tier, repaired by C01's fix "
          "'init_single_word remembers the position of the word'; the refutation range_is_syllables_refuted was deleted because "
